@@ -330,6 +330,16 @@ open_("F-C09-rangeop-lexer", "C09",
 fixed("FX-C11-deep-nesting", "C11", "a420563",
       "a formula with 3000 nested parentheses overflowed the stack of the recursive-descent parser and aborted the process",
       {"tier": "quick", "seed": 0, "index": 88})
+fixed("FX-C11-date-overflow", "C11", "0379ea5",
+      "=DATE(2020,1E+9,1) panicked with 'NaiveDate + Months out of range'",
+      {"text": "=DATE(2020,1E+9,1)", "class": "extreme-call"})
+fixed("FX-C11-date-functions-overflow", "C11", "b465393",
+      "=EDATE(1,1E+9), =EOMONTH(1,-1E+9) and =WORKDAY(TRUE,-1E+308) panicked in chrono date arithmetic",
+      {"text": "=EDATE(1,1E+9)", "class": "extreme-call"})
+open_("F-C11-function-argument-panics", "C11",
+      "several built-in functions panic on out-of-domain arguments instead of returning an error: =SUBSTITUTE(-0,2958466) and =XNPV(1E+308,{1,-1E+308;0,1E+308}) index out of bounds, =CHOOSEROWS(9007199254740993,-1E+308) index out of bounds, =DOLLAR(171,1E+15) 'Formatting argument out of range', =T.INV(1E-320,170) / =CRITBINOM(1E-320,-0,0.5) unwrap inside statrs, =WRAPROWS(\"a\",1E+100,1) capacity overflow",
+      {"text": "=SUBSTITUTE(-0,2958466)", "class": "extreme-call"},
+      patterns=[{"check": "crash", "keys": ["extreme-call"], "cats": ["*"]}])
 IMPORT_FILES = ["xlsx/src/import/worksheets.rs", "xlsx/src/import/styles.rs", "xlsx/src/import/mod.rs", "xlsx/src/import/workbook.rs",
                 "xlsx/src/import/conditional_formatting.rs", "xlsx/src/import/tables.rs", "xlsx/src/import/shared_strings.rs",
                 "xlsx/src/import/metadata.rs", "xlsx/src/import/util.rs", "xlsx/src/import/colors.rs"]
@@ -402,6 +412,14 @@ open_("F-C05-number-text-precision", "C05", "same defect as F-C06-number-text-pr
 open_("F-C05-negative-zero-text", "C05", "same defect as F-C06-negative-zero-text, seen by the local consistency check",
       c05(1, I(0, 1, 2, "=-A1&\"\"")),
       patterns=[{"check": "stale-or-inconsistent-value", "keys": ["negative-zero-text"], "cats": ["*"]}])
+
+# ---------------------------------------------------------------- C08
+def c08(text, array=False): return {"inputs": [[5, 3, text, array], [8, 3, "=C5", False], [9, 3, "=SUM(C5:D6)", False]]}
+fixed("FX-C08-array-arithmetic", "C08", "dfa06e7", "={1E+308,2}*10 kept an infinite element in the spill", c08("={1E+308,2}*10"))
+fixed("FX-C08-array-functions", "C08", "5a925c4", "=ACOS({3,2}) and =EXP({709,710,711}) stored NaN / inf in anchor and spill cells", c08("=EXP({709,710,711})"))
+fixed("FX-C08-array-functions-cse", "C08", "5a925c4", "=ACOSH(A3:A4) entered as an array formula stored NaN", c08("=ACOSH(A3:A4)", True))
+fixed("FX-C08-typed-number", "C08", "7cbbd28", "typing 1.8e308 created a number cell holding inf", c08("1.8e308"))
+fixed("FX-C08-imported-number", "C08", "b1fce7b", "<v>NaN</v> in an xlsx file became a NaN number cell", {"file_numbers": ["NaN", "inf", "1E+999", "-Infinity"]})
 
 def main():
     os.makedirs(os.path.join(HERE, "findings"), exist_ok=True)
